@@ -89,10 +89,13 @@ Proof. exists w_list_since_max. exact list_since_max_differs. Qed.
 (* the empty channel name: the Redis side drops the delivery ("unsupported channel") *)
 Theorem C18_empty_channel_refuted : exists ops, redis_run cfgS ops <> mem_run cfgS ops.
 Proof. exists w_empty_channel. exact empty_channel_differs. Qed.
-(* time: a version-suppressed publish refreshes the history TTL in memory only;
+(* time: a version-suppressed DELTA publish refreshes the meta TTL in memory only (the plain
+   version-suppressed publish was fixed in /repo, see suppressed_ttl_agrees_fixed);
    a meta TTL shorter than the history TTL leaves stale entries in Redis *)
-Theorem C18_suppressed_publish_ttl_refuted : exists ops, redis_run cfgS ops <> mem_run cfgS ops.
-Proof. exists w_suppressed_ttl. exact suppressed_ttl_differs. Qed.
+Theorem C18_suppressed_delta_publish_ttl_refuted : exists cfg ops, redis_run cfg ops <> mem_run cfg ops.
+Proof. exists cfg100, w_suppressed_delta_ttl. exact suppressed_delta_ttl_differs. Qed.
+Example C18_suppressed_publish_ttl_fixed : redis_run cfg100 w_suppressed_ttl = mem_run cfg100 w_suppressed_ttl.
+Proof. exact suppressed_ttl_agrees_fixed. Qed.
 Theorem C18_meta_ttl_shorter_refuted : exists cfg ops, redis_run cfg ops <> mem_run cfg ops.
 Proof. exists cfgM, w_meta_shorter. exact meta_shorter_differs. Qed.
 
